@@ -173,22 +173,54 @@ def refuted(facts, cond):
 
 # --------------------------------------------------------------------------- typestate
 
+_SUMMARIES = {}
+
+
+def flag_summary(ctx, callee, param):
+    """What a helper that receives the tokenizer does to its mode: {mode in: set of (mode out, returned bool or None)}.
+    None when the helper never writes the tokenizer."""
+    key = (id(ctx.repo), callee.where, param)
+    if key in _SUMMARIES:
+        return _SUMMARIES[key]
+    writes = any(isinstance(c, ast.Call) and isinstance(c.func, ast.Attribute) and c.func.attr == SETTER
+                 and isinstance(c.func.value, ast.Name) and c.func.value.id == param for c in ast.walk(callee.node))
+    if not writes:
+        _SUMMARIES[key] = None
+        return None
+    tr = _Tracker(ctx, callee, None, set(), None, tok=param)
+    tr.run(track_facts=False)
+    summ = {True: set(), False: set()}
+    for nd in tr.cfg.nodes:
+        if nd.kind == 'return':
+            for g, mode, loc in tr.seen.get(nd.id, set()):
+                rv = tr.eval_test(nd.ast.value, mode, loc) if nd.ast.value is not None else None
+                summ[g].add((mode, rv))
+    # falling off the end
+    ends = [p for p, _ in tr.cfg.exit.pred if tr.cfg.nodes[p].kind != 'return']
+    for pid in ends:
+        for g, mode, loc in tr.seen.get(tr.cfg.exit.id, set()):
+            summ[g].add((mode, None))
+    _SUMMARIES[key] = summ
+    return summ
+
+
 class _Tracker(object):
-    def __init__(self, ctx, f, required, tok_funcs, ra):
+    def __init__(self, ctx, f, required, tok_funcs, ra, tok='tokenizer'):
         self.ctx, self.f, self.required = ctx, f, required
         self.repo = ctx.repo
         self.view = view_of(f)
         self.cfg = self.view.cfg
         self.tok_funcs = tok_funcs
         self.ra = ra
-        self.tok = 'tokenizer'
+        self.tok = tok
         if self.tok not in f.params:
-            raise AnalysisError('%s has no `tokenizer` parameter' % f.where)
+            raise AnalysisError('%s has no `%s` parameter' % (f.where, tok))
         # boolean locals assigned only True/False constants
         cand = {}
         for n in walk_own(f.node):
             if isinstance(n, ast.Assign) and len(n.targets) == 1 and isinstance(n.targets[0], ast.Name):
-                ok = (isinstance(n.value, ast.Constant) and isinstance(n.value.value, bool)) or self._is_getter_expr(n.value)
+                ok = (isinstance(n.value, ast.Constant) and isinstance(n.value.value, bool)) or self._is_getter_expr(n.value) \
+                    or self._helper_call(n.value) is not None
                 cand.setdefault(n.targets[0].id, []).append(ok)
         self.bools = set(k for k, v in cand.items() if all(v) and k not in f.params)
         self._mayraise = {}
@@ -196,12 +228,27 @@ class _Tracker(object):
     def _is_tok(self, e):
         return isinstance(e, ast.Name) and e.id == self.tok
 
+    def _helper_call(self, e):
+        """e is a call of a repository helper that receives the tokenizer and writes its mode -> (summary, call)"""
+        if not isinstance(e, ast.Call):
+            return None
+        r = self.repo.resolve_call(self.f, e)
+        if r is None:
+            return None
+        callee, kind, bound = r
+        for p_, a in bound.items():
+            if self._is_tok(a):
+                summ = flag_summary(self.ctx, callee, p_)
+                if summ is not None:
+                    return summ
+        return None
+
     def _is_getter_expr(self, e):
         """tokenizer.get_return_set() possibly negated: a saved copy of the mode"""
         if isinstance(e, ast.UnaryOp) and isinstance(e.op, ast.Not):
             return self._is_getter_expr(e.operand)
         return isinstance(e, ast.Call) and isinstance(e.func, ast.Attribute) and e.func.attr == GETTER \
-            and isinstance(e.func.value, ast.Name) and e.func.value.id == 'tokenizer' and not e.args
+            and isinstance(e.func.value, ast.Name) and e.func.value.id == self.tok and not e.args
 
     def eval_test(self, t, mode, loc):
         if isinstance(t, ast.UnaryOp) and isinstance(t.op, ast.Not):
@@ -270,7 +317,7 @@ class _Tracker(object):
         cache[node.id] = facts
         return facts
 
-    def run(self):
+    def run(self, track_facts=True):
         cfg = self.cfg
         seen = {}
         work = []
@@ -309,19 +356,37 @@ class _Tracker(object):
                             nmode = self.eval_test(c.args[0], mode, loc)
                         else:
                             raise AnalysisError('%s: %s(<non-constant>) at %s' % (self.f.where, SETTER, self.f.loc(c)))
+            multi = None
+            if node.kind == 'stmt' and isinstance(st, (ast.Assign, ast.Expr)) and isinstance(st.value, ast.Call):
+                summ = self._helper_call(st.value)
+                if summ is not None:
+                    multi = []
+                    for m_out, rv in summ[mode]:
+                        l2 = loc
+                        if isinstance(st, ast.Assign) and len(st.targets) == 1 and isinstance(st.targets[0], ast.Name) \
+                                and st.targets[0].id in self.bools:
+                            d = dict(loc)
+                            d[st.targets[0].id] = rv
+                            l2 = tuple(sorted(d.items(), key=lambda kv: kv[0]))
+                        multi.append((m_out, l2))
             if node.kind == 'test' and isinstance(st, ast.If):
                 v = self.eval_test(st.test, mode, loc)
                 if v is not None:
                     succ = [(s, lab) for s, lab in succ if lab == ('T' if v else 'F')]
             # exceptional exit of a call made while the mode differs from the caller's
-            if mode != g and node.kind in ('stmt', 'test', 'loop', 'return') and st is not None:
+            if track_facts and mode != g and node.kind in ('stmt', 'test', 'loop', 'return') and st is not None:
                 und = self.may_raise(node, facts_cache)
                 if und:
                     has_exc = any(lab == 'exc' for _, lab in node.succ)
                     if not has_exc:
                         exc_reports.setdefault(nid, und)
-            for s, lab in succ:
-                work.append((s, (g, nmode, nloc)))
+            if multi is not None:
+                for m_out, l2 in multi:
+                    for s, lab in succ:
+                        work.append((s, (g, m_out, l2)))
+            else:
+                for s, lab in succ:
+                    work.append((s, (g, nmode, nloc)))
         self.seen = seen
         return exc_reports
 
@@ -374,9 +439,16 @@ def check_join(ctx, name, tok_funcs, ra):
     for exit_node, rule, what in ((cfg.exit, 'R-FLAG/F2-exit', 'normal return'), (cfg.rexit, 'R-FLAG/F3-raise', 'explicit raise')):
         states = tr.seen.get(exit_node.id, set())
         bad = sorted(set(g for g, mode, _ in states if mode != g))
+        where = f.node
+        if bad:
+            # the statement that leaves the function in the wrong mode: a return/raise node whose states are bad
+            for nd in cfg.nodes:
+                if nd.kind in ('return', 'raise') and any(mode != g for g, mode, _ in tr.seen.get(nd.id, set())):
+                    where = nd.ast
+                    break
         ctx.check(rule, f, what, not bad,
                   'a %s leaves the tokenizer with return_set=%s although the caller passed return_set=%s'
-                  % (what, [not b for b in bad], bad), f.node,
+                  % (what, [not b for b in bad], bad), where,
                   sample='%d abstract states at this exit, all restored' % len(states))
     for nid, und in sorted(exc_reports.items()):
         node = cfg.nodes[nid]
@@ -398,6 +470,17 @@ def check_f4(ctx):
     """Nothing but the join functions' set_return_set calls writes a tokenizer."""
     repo = ctx.repo
     allowed = set(repo.fn(p, q).where for p, q, _, _ in JOINS.values())
+    # flag helpers: functions that write the tokenizer mode and are called only from the join functions; their
+    # effect is folded into the typestate of each caller (flag_summary)
+    callers = {}
+    for f in repo.all_funcs():
+        for c in repo.calls_in(f):
+            r = repo.resolve_call(f, c)
+            if r is not None:
+                callers.setdefault(r[0].where, set()).add(f.where)
+    for f in repo.all_funcs():
+        if f.where not in allowed and callers.get(f.where) and callers[f.where] <= allowed and 'tokenizer' in f.params:
+            allowed = allowed | {f.where}
     n = 0
     for f in repo.all_funcs():
         if f.module.relpath.endswith('disk_edit_distance_join.py'):
@@ -419,7 +502,7 @@ def check_f4(ctx):
                 ctx.check('R-FLAG/F4', f, tgt, False,
                           '`%s` writes a tokenizer outside the join functions\' flip/restore' % tgt, node)
     ctx.check('R-FLAG/F4', '-', 'no foreign tokenizer writes', True, nontrivial=False)
-    ctx.floor('R-FLAG/F4', n, 12, 'set_return_set call sites in the join functions')
+    ctx.floor('R-FLAG/F4', n, 6, 'set_return_set call sites in the join functions and their flag helpers')
     # positive fixture: the rule must see a foreign write
     fx = ast.parse('def g(tokenizer):\n    tokenizer.set_return_set(True)\n    tokenizer.qval = 3\n').body[0]
     hits = 0
